@@ -49,6 +49,17 @@ def main():
         cmds = demo_cmds(mdir)
         res["demo_cmds"] = cmds
 
+        if not any(c.startswith("cp ") for c in cmds):
+            # no copy command given: place each *_test.go into the package the go test command names
+            pk = None
+            for c in cmds:
+                m = re.search(r"\s(\./[\w./-]+)\s*$", c)
+                if m:
+                    pk = m.group(1)
+            if pk:
+                cmds = ["cp %s %s/zz_%s" % (f, pk, f) for f in files if f.endswith("_test.go")] + cmds
+                res["demo_cmds"] = cmds
+
         def run_demo():
             for f in files:
                 src = os.path.join(mdir, f)
